@@ -146,6 +146,11 @@ func Call(which string, src []byte, deadline time.Duration) Outcome {
 		ok, err := e.f(&p, src)
 		if err != nil {
 			txt := err.Error()
+			if len(txt) > 200*len(src)+100000 {
+				// (memory out of proportion to the input: the message alone)
+				ch <- Outcome{Kind: "hang", Text: fmt.Sprintf("an error message of %d bytes for an input of %d bytes: %.300s", len(txt), len(src), txt)}
+				return
+			}
 			kind := "error"
 			if !posRe.MatchString(txt) {
 				kind = "noposition"
